@@ -222,6 +222,7 @@ def run_shard(desc, seed, tier, col):
         return case
 
     def body(case):
+        col.begin(case)
         for f in run_case(case, col):
             col.fail(f['sub'], f['kind'], f['msg'], dict(case, kind=f['obs']['kind']), sig=f['sig'], obs=f.get('obs'))
 
